@@ -59,7 +59,8 @@ func runSysIDs(x *X) {
 		ex.resp = &respScript{status: 200, framing: "cl", hdr: []hdrKV{{"Content-Type", "text/plain"}}, body: []byte("ok")}
 		sup := ""
 		if c.Intn(3, "supply") == 0 {
-			sup = []string{"client-id-1", "abc 123", strings.Repeat("z", 200)}[c.Intn(3, "supv")]
+			// (also white space by Unicode's book that HTTP's header parser leaves alone, and a Latin-1 byte)
+			sup = []string{"client-id-1", "abc 123", strings.Repeat("z", 200), "trail-nbsp\u00a0", "\u2003lead-emsp", "caf\xe9-42"}[c.Intn(6, "supv")]
 			ex.hdr = append(ex.hdr, hdrKV{rh, sup}, hdrKV{th, sup})
 		}
 		mut(ex)
